@@ -59,4 +59,20 @@ CHECKS = {
         thorough=[R("^TestWriterFixed$", 1, 1, 200), R("^TestWriter$", 700, 14, 3000), R("^TestWriter$", 100, 2, 3000, race=True)],
         floors={"backlog>100": ("TestWriter", 0.2)},
     ),
+    "C11": dict(
+        pkg="./props/c11", level="exploration",
+        rule=("rapid-generated role trees (depth <=5, <=4 children, task and call leaves of either criticality, built from YAML through "
+              "overlay hook H2) and 1-40 leaf updates (state in STANDBY/CONFIGURED/RUNNING/ERROR/DONE, status in INACTIVE/ACTIVE/UNDEPLOYABLE) "
+              "applied through PublicUpdatable sequentially (every node compared with an independent fold after every step) or "
+              "concurrently with one goroutine per leaf (compared at quiescence); the environment-side ParentAdapter subscription must see "
+              "ERROR iff a critical leaf was ever in ERROR; metamorphic variant with permuted children and permuted arrival order. State.X / "
+              "Status.X are enumerated exhaustively (pairs, triples, multisets <=4) against the fold. Non-trivial: tree with >=2 levels, both "
+              "criticalities and >=1 ERROR or status update. Distinct = distinct case digests."),
+        assumptions=["role trees are built by overlay hook H2 (yaml.Unmarshal into aggregatorRole + LinkChildrenToParents), as workflow.Load does before template processing",
+                     "MIXED/PARTIAL/UNDEFINED are never injected at a leaf (the task manager never sends them)",
+                     "goroutine interleavings of concurrent updates are sampled, not enumerated"],
+        quick=[R("^(TestAlgebraExhaustive|TestFoldFixed|TestCanary.*)$", 1, 1, 120), R("^TestFold$", 1200, 6, 300)],
+        thorough=[R("^(TestAlgebraExhaustive|TestFoldFixed|TestCanary.*)$", 1, 1, 120), R("^TestFold$", 12000, 12, 2400), R("^TestFold$", 1500, 2, 2400, race=True)],
+        floors={"concurrent": ("TestFold", 0.15), "mixed-criticality": ("TestFold", 0.4)},
+    ),
 }
